@@ -11,15 +11,53 @@ of ItemSpaces last" are re-checked against the code as it is now.
 namespace MxModel.Dispatch
 open MxModel.Generated
 
+/-! ## The `condition`s
+
+The selector classes' `condition` methods are read from the code as normalised source text
+(`encoderConditions`, `decoderConditions`; an inherited condition is listed for the inheriting
+class).  `modelled…` are the texts this model was written for; `Props/C04.conditions_as_modelled`
+compares the two on every build, so an edit of any condition (`LiteralEncoder.condition` testing
+with `isinstance`, `TupleDecoder.condition` looking at another element …) stops the theorems from
+checking.  A condition text the model does not know accepts NOTHING in the model. -/
+
+def modelledEncoderConditions : List (String × String) :=
+  [("InterfaceRefEncoder", "(cls, ref, writer) value = ref.value; return isinstance(value, Interface) and value._is_valid()"), ("LiteralEncoder", "(cls, ref, writer) value = ref.value; return any((type(value) is t for t in cls.literal_types))"), ("IOSpecEncoder", "(cls, ref, writer) if not isinstance(ref, Interface):     return id(ref.value) in writer.value_id_map else:     return False"), ("ModuleEncoder", "(cls, ref, writer) value = ref.value; if id(value) in writer.value_id_map:     return False else:     return isinstance(value, types.ModuleType)"), ("PickleEncoder", "(cls, ref, writer) return True")]
+
+def modelledDecoderConditions : List (String × String) :=
+  [("InterfaceDecoder", "(cls, node) if isinstance(node, ast.Tuple):     if node.elts[0].s == cls.DECTYPE:         return True     elif hasattr(cls, 'DECTYPE_COMPAT') and node.elts[0].s == cls.DECTYPE_COMPAT:         return True; return False"), ("IOSpecDecoder", "(cls, node) if isinstance(node, ast.Tuple):     if node.elts[0].s == cls.DECTYPE:         return True     elif hasattr(cls, 'DECTYPE_COMPAT') and node.elts[0].s == cls.DECTYPE_COMPAT:         return True; return False"), ("ModuleDecoder", "(cls, node) if isinstance(node, ast.Tuple):     if node.elts[0].s == cls.DECTYPE:         return True     elif hasattr(cls, 'DECTYPE_COMPAT') and node.elts[0].s == cls.DECTYPE_COMPAT:         return True; return False"), ("PickleDecoder", "(cls, node) if isinstance(node, ast.Tuple):     if node.elts[0].s == cls.DECTYPE:         return True     elif hasattr(cls, 'DECTYPE_COMPAT') and node.elts[0].s == cls.DECTYPE_COMPAT:         return True; return False"), ("LiteralDecoder", "(cls, node) return True")]
+
+/-- `LiteralEncoder.condition`: the value's type IS one of `literal_types` -/
+def literalCondition : String :=
+  "(cls, ref, writer) value = ref.value; return any((type(value) is t for t in cls.literal_types))"
+
+/-- `TupleDecoder.condition`: a tuple whose first element is `DECTYPE` or `DECTYPE_COMPAT` -/
+def tupleCondition : String :=
+  "(cls, node) if isinstance(node, ast.Tuple):     if node.elts[0].s == cls.DECTYPE:         return True     elif hasattr(cls, 'DECTYPE_COMPAT') and node.elts[0].s == cls.DECTYPE_COMPAT:         return True; return False"
+
+def alwaysCondition (params : String) : String := params ++ " return True"
+
+/-- `DECTYPE_COMPAT` of a decoder class -/
+def compatOf (cls : String) : Option String := decoderCompatTags.lookup cls
+
 /-- does decoder class `d` accept a right-hand side whose first tuple element is `tag`
-(`tag = ""`: the right-hand side is not a tagged tuple)?  `TupleDecoder.condition`:
-`node.elts[0].s == cls.DECTYPE`; `LiteralDecoder.condition`: `True`. -/
+(`tag = ""`: the right-hand side is not a tagged tuple)?  Decided by the condition text the class
+has in the code now. -/
 def decoderAccepts (d : String × String) (tag : String) : Bool :=
-  (d.2 != "" && d.2 == tag) || unconditionalClasses.contains d.1
+  match decoderConditions.lookup d.1 with
+  | some c =>
+    if c = alwaysCondition "(cls, node)" then true
+    else if c = tupleCondition then tag != "" && (d.2 == tag || compatOf d.1 == some tag)
+    else false
+  | none => false
 
 /-- `DecoderSelector.select` on a right-hand side tagged `tag` -/
 def selectDecoder (tag : String) : Option (String × String) :=
   decoderTags.find? (decoderAccepts · tag)
+
+/-- the types whose values `LiteralEncoder.encode` can write as text that `LiteralDecoder.decode`
+reads back: `str()` of `True`/`False`/`None` (read with `ast.literal_eval`), `json.dumps` of
+numbers and strings (read with `json.loads`, which knows `NaN` and `Infinity`) -/
+def textLiteralTypes : List String := ["bool", "int", "float", "str", "type(None)"]
 
 /-- index of the phase of `_read_model_inner` in which instructions named `m` are executed -/
 def phaseOf (m : String) : Option Nat :=
@@ -29,6 +67,25 @@ def phaseOf (m : String) : Option Nat :=
 /-- both names are executed, `a` in a strictly earlier phase than `b` -/
 def phaseBefore (a b : String) : Bool :=
   match phaseOf a, phaseOf b with
+  | some i, some j => i < j
+  | _, _ => false
+
+/-- position of the statement `self.<name>()` in `_read_model_inner` -/
+def callStep (name : String) : Option Nat :=
+  let i := readerSteps.findIdx (·.1 == name)
+  if i < readerSteps.length then some i else none
+
+/-- position of the `execute_selected_methods` call that executes instructions named `m` -/
+def methodStep (m : String) : Option Nat :=
+  match phaseOf m with
+  | some k =>
+    let i := readerSteps.findIdx (· == ("phase", k))
+    if i < readerSteps.length then some i else none
+  | none => none
+
+/-- `self.<name>()` stands before the phase that executes `m` -/
+def callBefore (name m : String) : Bool :=
+  match callStep name, methodStep m with
   | some i, some j => i < j
   | _, _ => false
 
